@@ -157,9 +157,10 @@ def exp_compact(kind, d):
     if kind in ("R2", "R3", "SE2"):
         return list(d)
     n2 = d[3] * d[3] + d[4] * d[4] + d[5] * d[5]
-    if n2 > 1:
+    if n2 > 1 + 1e-12:
         raise ValueError("rotational part of norm > 1 has no pose")
-    return list(d[:3]) + [d[3], d[4], d[5], math.sqrt(1 - n2)]
+    # a norm of 1 up to rounding of the squares is a half turn (w = 0)
+    return list(d[:3]) + [d[3], d[4], d[5], math.sqrt(max(1 - n2, 0))]
 
 
 def compact(kind, a):
